@@ -29,6 +29,8 @@ type Tape struct {
 	Net      string           `json:"net,omitempty"` // "" | stale | dup | truncate | krberror
 	NetArg   int64            `json:"net_arg,omitempty"`
 	Addrs    bool             `json:"addresses,omitempty"` // client asks for addresses (noaddresses = false)
+	Client   string           `json:"client,omitempty"`    // "" = alice; alice/admin = a two-component principal
+	PauseMs  int64            `json:"pause_ms,omitempty"`  // simulated time between the honest preparation and the attacked exchange (0 = 3000)
 	Canon    bool             `json:"canonicalize,omitempty"`
 	Fwd      bool             `json:"forwardable,omitempty"`
 	Prox     bool             `json:"proxiable,omitempty"`
@@ -48,7 +50,7 @@ var sec = int64(1_000_000_000)
 // every single-field perturbation of the reply (DESIGN 3, C09)
 var perts = []pert{
 	{"nonce", []int64{1, -1}},
-	{"cname", nil}, {"cname-extra", nil}, {"crealm", nil},
+	{"cname", nil}, {"cname-extra", nil}, {"cname-regroup", nil}, {"crealm", nil},
 	{"sealed-sname", nil}, {"sealed-srealm", nil}, {"ticket-realm", nil},
 	{"caddr-added", nil}, {"caddr-dropped", nil},
 	{"authtime", []int64{-301 * sec, 301 * sec, -300 * sec, 300 * sec, -299 * sec, 299 * sec, -3600 * sec, 86400 * sec}},
@@ -133,6 +135,10 @@ func Gen(caseID, tier string) (json.RawMessage, error) {
 			tp.Cred, tp.Flow, tp.Salt, tp.Addrs, tp.Prox, tp.Canon = "password", "none", "Custom.Salt", false, true, true
 		case 0:
 			tp.Canon, tp.Fwd = idx%2 == 1, idx%3 == 1
+			if idx%4 >= 2 {
+				tp.Client = "alice/admin"
+			}
+			tp.PauseMs = []int64{0, 1, 3000}[idx%3]
 		default:
 			return nil, fmt.Errorf("sweep index out of range")
 		}
@@ -149,6 +155,10 @@ func Gen(caseID, tier string) (json.RawMessage, error) {
 			c := idx - len(ss)*len(etypes)*len(exchanges)
 			tp.Exchange = []string{"as", "tgs"}[c/maxCode]
 			tp.Net, tp.NetArg = "krberror", int64(c%maxCode+1)
+			if tp.Exchange == "as" && c%2 == 1 {
+				// the KDC's error answers the second request of a pre-authenticated exchange
+				tp.Cred, tp.Flow, tp.Hints, tp.Net = "password", "preauth", []string{"etype-info2"}, "krberror-second"
+			}
 			if tp.Cred == "password" {
 				tp.Etype = 17
 			}
@@ -171,6 +181,8 @@ func Gen(caseID, tier string) (json.RawMessage, error) {
 	tp := Tape{Engine: "c09", RunSeed: n, Cred: r.Pick("keytab", "keytab", "password"), Etype: etypes[r.Intn(len(etypes))],
 		Flow: r.Pick("none", "preauth", "preauth", "assumed"), Exchange: exchanges[r.Intn(3)], Addrs: r.Chance(1, 2), TCP: r.Chance(1, 3)}
 	tp.Canon, tp.Fwd, tp.Prox = r.Chance(1, 3), r.Chance(1, 3), r.Chance(1, 4)
+	tp.Client = r.Pick("", "", "alice/admin")
+	tp.PauseMs = int64(r.PickInt(0, 3000, 1, 1, 700))
 	tp.Renew = r.Pick("", "", "1d")
 	if tp.Cred == "password" && (tp.Etype == 19 || tp.Etype == 20) && r.Chance(2, 3) {
 		tp.Etype = r.PickInt(17, 18, 23, 16) // RFC 8009 string-to-key costs 32768 PBKDF2 rounds on each side
@@ -214,7 +226,7 @@ func Gen(caseID, tier string) (json.RawMessage, error) {
 		}
 	}
 	if r.Chance(1, 10) {
-		tp.Net, tp.NetArg = "krberror", int64(r.Range(1, maxCode))
+		tp.Net, tp.NetArg = r.Pick("krberror", "krberror", "krberror-second"), int64(r.Range(1, maxCode))
 		if r.Chance(1, 3) {
 			tp.Net, tp.TCP = r.Pick("krberror-tcp-after-refuse", "krberror-tcp-after-toobig"), false
 		}
